@@ -405,7 +405,7 @@ def gen_infeasible(rng) -> dict:
         hdr += f"  timingresolution {_pick(rng, ['15min', '30min', '60min'])}\n"
     hdr += "}\n"
     res = 'resource r0 "R0" {}\nresource r1 "R1" { workinghours sat 09:00 - 09:00 }\nresource r2 "R2" { limits { dailymax 1h } }\n'
-    kind = rng.randrange(16)
+    kind = rng.randrange(21)
     far = (start + timedelta(days=rng.randrange(30, 4000))).isoformat()
     before = (start - timedelta(days=rng.randrange(1, 400))).isoformat()
     t = ""
@@ -439,8 +439,30 @@ def gen_infeasible(rng) -> dict:
         t = 'task c "C" {\n  task x "X" { effort 2h allocate r0 depends c }\n  task y "Y" { effort 2h allocate r0 depends !x }\n}\n'
     elif kind == 14:  # duration / length beyond end
         t = f'task a "A" {{ duration {rng.randrange(500, 9000)}h }}\ntask b "B" {{ length {rng.randrange(200, 3000)}h }}\n'
-    else:  # unallocated effort, unknown refs
+    elif kind == 15:  # unallocated effort, unknown refs
         t = 'task a "A" { effort 5h }\ntask b "B" { effort 5h allocate r0 depends !a }\n'
+    elif kind == 16:  # dependency cycle upstream of an ALAP task with a fixed deadline
+        dl = (start + timedelta(days=rng.randrange(2, 12))).isoformat()
+        t = f'task a "A" {{ effort 4h allocate r0 depends b }}\ntask b "B" {{ effort 4h allocate r0 depends a }}\ntask c "C" {{ effort 4h allocate r0 depends {_pick(rng, ["a", "b", "a, b"])} scheduling alap end {dl}-17:00 }}\n'
+    elif kind == 17:  # self-dependency inside an ALAP chain (one flipped digit in a reference)
+        dl = (start + timedelta(days=rng.randrange(2, 12))).isoformat()
+        t = f'task s "S" {{\n  task s1 "S1" {{ effort 4h allocate r0 }}\n  task s2 "S2" {{ effort 4h allocate r0 depends !s{_pick(rng, [2, 2, 3])} }}\n  task s3 "S3" {{ effort 4h allocate r0 depends !s2 scheduling alap end {dl}-17:00 }}\n}}\n'
+    elif kind == 18:  # ALAP project, container deadline, cycle among the children
+        hdr = hdr.replace("}\n", "  scheduling alap\n}\n", 1)
+        dl = (start + timedelta(days=rng.randrange(3, 12))).isoformat()
+        t = f'task k "K" {{\n  end {dl}\n  task x "X" {{ effort 3h allocate r0 depends !z }}\n  task y "Y" {{ effort 3h allocate r0 depends !x }}\n  task z "Z" {{ effort 3h allocate r0 depends !y }}\n  task w "W" {{ effort 2h allocate r0 depends !{_pick(rng, ["x", "y", "z"])} }}\n}}\n'
+    elif kind == 19:  # long dependency chain, forward or ending in an ALAP deadline
+        n = rng.randrange(20, 120)
+        alap = rng.random() < 0.5
+        parts = ['task c0 "C0" { effort 1h allocate r0 }']
+        for i in range(1, n):
+            parts.append(f'task c{i} "C{i}" {{ effort 1h allocate r0 depends c{i - 1} }}')
+        if alap:
+            parts[-1] = parts[-1][:-2] + f" scheduling alap end {(start + timedelta(days=60)).isoformat()} }}"
+            hdr = hdr.replace("+1w", "+4m").replace("+2w", "+4m").replace("+3d", "+4m").replace("+1m", "+4m")
+        t = "\n".join(parts) + "\n"
+    else:  # precedes cycles and mutual precedes/depends
+        t = 'task a "A" { effort 2h allocate r0 precedes b }\ntask b "B" { effort 2h allocate r0 precedes a }\ntask c "C" { effort 2h allocate r0 depends a precedes a }\n'
     # Mix with a feasible generated project half of the time so the loop has other work
     if rng.random() < 0.4:
         extra = "\n".join(x for x in base["text"].split("\n") if x.startswith("task ") and x.endswith("}"))
@@ -549,6 +571,18 @@ def corrupt(rng, text: str, n_edits: int | None = None) -> tuple[str, list]:
             fill = "\x00" * ln if rng.random() < 0.3 else ""
             text = text[:i] + fill + text[i + ln :]
             edits.append(["lost", i, ln, bool(fill)])
+        elif k == 11 and rng.random() < 0.6:  # a reference now names another task (flipped character in an id)
+            import re as _re
+
+            ids = list(dict.fromkeys(_re.findall(r"task (\w+) ", text)))
+            refs = [m for m in _re.finditer(r"(depends|precedes) ([!.\w]+)", text)]
+            if ids and refs:
+                m = _pick(rng, refs)
+                old_ref = m.group(2)
+                lead = old_ref[: len(old_ref) - len(old_ref.lstrip("!"))]
+                new_ref = lead + _pick(rng, ids)
+                text = text[: m.start(2)] + new_ref + text[m.end(2) :]
+                edits.append(["reref", m.start(2), new_ref])
         else:  # number magnitude change
             idx = [i for i, c in enumerate(text) if c.isdigit()]
             if idx:
@@ -557,3 +591,52 @@ def corrupt(rng, text: str, n_edits: int | None = None) -> tuple[str, list]:
                 text = text[:i] + ins + text[i:]
                 edits.append(["mag", i, ins])
     return text, edits
+
+
+# ------------------------------------------------------------------ variants
+
+
+def variant(rng, text: str) -> str:
+    """A sibling of a project: same header (dates, resolution), one or two small semantic edits.
+    Processing variants of one project in one interpreter is the natural history for anything keyed on
+    project-level values."""
+    import re
+
+    lines = text.split("\n")
+    for _ in range(1 + (rng.random() < 0.4)):
+        k = rng.randrange(7)
+        m = re.search(r"project\s+\w+\s+\"[^\"]*\"\s+(\d{4})-(\d{2})-(\d{2})", text)
+        base = date(int(m.group(1)), int(m.group(2)), int(m.group(3))) if m else date(2025, 1, 6)
+        try:
+            close = next(i for i, ln in enumerate(lines) if ln == "}")  # end of the project header (unindented brace)
+        except StopIteration:
+            return text
+        if k == 0:  # add a global vacation
+            v0 = base + timedelta(days=rng.randrange(0, 12))
+            lines.insert(close + 1, f'vacation "V{rng.randrange(100)}" {v0.isoformat()} - {(v0 + timedelta(days=rng.randrange(1, 4))).isoformat()}')
+        elif k == 1:  # remove a global vacation / leaves line
+            idx = [i for i, ln in enumerate(lines) if ln.startswith("vacation ") or ln.startswith("leaves ")]
+            if idx:
+                del lines[_pick(rng, idx)]
+        elif k == 2:  # change one effort / duration / length amount
+            idx = [i for i, ln in enumerate(lines) if re.match(r"\s*(effort|duration|length) \d+", ln)]
+            if idx:
+                i = _pick(rng, idx)
+                lines[i] = re.sub(r"\d+", str(rng.randrange(1, 40)), lines[i], count=1)
+        elif k == 3:  # drop a dependency line
+            idx = [i for i, ln in enumerate(lines) if ln.strip().startswith(("depends ", "precedes "))]
+            if idx:
+                del lines[_pick(rng, idx)]
+        elif k == 4:  # add a task at the end using the default calendar
+            lines.append(f'task vx{rng.randrange(100)} "VX" {{\n  {_pick(rng, ["duration", "length"])} {rng.randrange(2, 30)}h\n  start {(base + timedelta(days=rng.randrange(0, 6))).isoformat()}\n}}')
+        elif k == 5:  # change a resource attribute
+            idx = [i for i, ln in enumerate(lines) if ln.strip().startswith(("efficiency ", "limits {"))]
+            if idx:
+                del lines[_pick(rng, idx)]
+        else:  # change a priority / add one
+            idx = [i for i, ln in enumerate(lines) if re.match(r"\s*(effort) \d+", ln)]
+            if idx:
+                i = _pick(rng, idx)
+                ind = lines[i][: len(lines[i]) - len(lines[i].lstrip())]
+                lines.insert(i + 1, f"{ind}priority {_pick(rng, [1, 200, 800, 1000])}")
+    return "\n".join(lines)
